@@ -1,0 +1,130 @@
+//go:build verif
+
+package cmd
+
+import (
+	"context"
+	"crypto/tls"
+	"log/slog"
+	"net/netip"
+	"path/filepath"
+	"runtime"
+
+	"github.com/AdguardTeam/AdGuardDNS/internal/agd"
+	"github.com/AdguardTeam/AdGuardDNS/internal/connlimiter"
+	"github.com/AdguardTeam/AdGuardDNS/internal/dnsserver/forward"
+	"github.com/AdguardTeam/AdGuardDNS/internal/dnsserver/ratelimit"
+	"github.com/AdguardTeam/AdGuardDNS/internal/dnssvc"
+	"gopkg.in/yaml.v2"
+)
+
+// VerifC20Conf wraps a parsed configuration file for the C20 verification
+// harness.
+type VerifC20Conf struct {
+	c *configuration
+}
+
+// VerifC20Parse parses data the way [parseConfig] does, without validating it.
+func VerifC20Parse(data []byte) (v *VerifC20Conf, err error) {
+	c := &configuration{}
+	err = yaml.Unmarshal(data, c)
+	if err != nil {
+		return nil, err
+	}
+
+	return &VerifC20Conf{c: c}, nil
+}
+
+// VerifC20Validate runs the start-up validation.
+func (v *VerifC20Conf) VerifC20Validate() (err error) { return v.c.validate() }
+
+// VerifC20RepoRoot returns the root of the source tree this file was compiled
+// from, so that the harness mutates the config.dist.yaml of the same tree.
+func VerifC20RepoRoot() (dir string) {
+	_, file, _, _ := runtime.Caller(0)
+
+	return filepath.Dir(filepath.Dir(filepath.Dir(file)))
+}
+
+// VerifC20BackoffConf converts the rate-limit section.
+func (v *VerifC20Conf) VerifC20BackoffConf(al ratelimit.Allowlist) (c *ratelimit.BackoffConfig) {
+	return v.c.RateLimit.toInternal(al)
+}
+
+// VerifC20Backoff builds the rate limiter the way builder.initRateLimiter does.
+func (v *VerifC20Conf) VerifC20Backoff(al ratelimit.Allowlist) (l *ratelimit.Backoff) {
+	return ratelimit.NewBackoff(v.c.RateLimit.toInternal(al))
+}
+
+// VerifC20ConnLimiter builds the stream-connection limiter.
+func (v *VerifC20Conf) VerifC20ConnLimiter(l *slog.Logger) (lim *connlimiter.Limiter) {
+	return v.c.RateLimit.ConnectionLimit.toInternal(l)
+}
+
+// VerifC20Cache converts the cache section.
+func (v *VerifC20Conf) VerifC20Cache() (c *dnssvc.CacheConfig) { return v.c.Cache.toInternal() }
+
+// VerifC20Forward converts the upstream section.
+func (v *VerifC20Conf) VerifC20Forward(l *slog.Logger) (c *forward.HandlerConfig) {
+	return v.c.Upstream.toInternal(l)
+}
+
+// verifC20TLS is a trivial TLS manager.
+type verifC20TLS struct{}
+
+func (verifC20TLS) Add(_ context.Context, _, _ string) (err error) { return nil }
+func (verifC20TLS) Clone() (c *tls.Config)                         { return &tls.Config{} }
+func (verifC20TLS) CloneWithMetrics(_, _ string, _ []string) (c *tls.Config) {
+	return &tls.Config{}
+}
+
+// VerifC20Servers converts one plain-DNS, one DoT and one DoQ server bound to
+// addr with the rate-limit and DNS sections of the configuration.
+func (v *VerifC20Conf) VerifC20Servers(addr netip.AddrPort) (srvs []*agd.Server, err error) {
+	ss := servers{{
+		Name:          "verif_dns",
+		Protocol:      srvProtoDNS,
+		BindAddresses: []netip.AddrPort{addr},
+	}, {
+		Name:          "verif_dot",
+		Protocol:      srvProtoTLS,
+		BindAddresses: []netip.AddrPort{addr},
+	}, {
+		Name:          "verif_doq",
+		Protocol:      srvProtoQUIC,
+		BindAddresses: []netip.AddrPort{addr},
+	}}
+
+	return ss.toInternal(nil, verifC20TLS{}, v.c.RateLimit, v.c.DNS, nil)
+}
+
+// VerifC20Ints returns the integer settings that are handed to cache and
+// buffer constructors elsewhere in the builder, keyed by dotted property name.
+func (v *VerifC20Conf) VerifC20Ints() (m map[string]int) {
+	c := v.c
+
+	return map[string]int{
+		"filters.custom_filter_cache_size":        c.Filters.CustomFilterCacheSize,
+		"filters.safe_search_cache_size":          c.Filters.SafeSearchCacheSize,
+		"filters.rule_list_cache.size":            c.Filters.RuleListCache.Size,
+		"geoip.host_cache_size":                   c.GeoIP.HostCacheSize,
+		"geoip.ip_cache_size":                     c.GeoIP.IPCacheSize,
+		"safe_browsing.cache_size":                c.SafeBrowsing.CacheSize,
+		"adult_blocking.cache_size":               c.AdultBlocking.CacheSize,
+		"interface_listeners.channel_buffer_size": ifaceBufSize(c.InterfaceListeners),
+	}
+}
+
+// ifaceBufSize returns the channel buffer size or 1 if the section is absent.
+func ifaceBufSize(c *interfaceListenersConfig) (n int) {
+	if c == nil {
+		return 1
+	}
+
+	return c.ChannelBufferSize
+}
+
+// VerifC20DNSDB reports whether the DNSDB is enabled and its maximum size.
+func (v *VerifC20Conf) VerifC20DNSDB() (enabled bool, maxSize int) {
+	return v.c.DNSDB.Enabled, v.c.DNSDB.MaxSize
+}
